@@ -408,7 +408,32 @@ def r15_6(ctx):
             a0 = nd.stmt.value.args[0] if nd.stmt.value.args else None
             if isinstance(a0, ast.BinOp) and isinstance(a0.op, ast.Add):
                 merges.append(nd)
-    ctx.floor(len(merges), 1, "merge sites in Segment.simplify")
+    # form B: the texts of a run are collected in a list that is joined into one Segment when the run ends - every statement that
+    # adds `<segment>.text` to that list is a merge site for that segment
+    joined_lists = set()
+    for c in walk_local(f.node):
+        if isinstance(c, ast.Call) and norm(c.func) in ("_Segment", "Segment", "cls") and c.args and isinstance(c.args[0], ast.Call) and isinstance(c.args[0].func, ast.Attribute) and c.args[0].func.attr == "join" \
+                and isinstance(c.args[0].func.value, ast.Constant) and c.args[0].func.value.value == "" and c.args[0].args and isinstance(c.args[0].args[0], ast.Name):
+            joined_lists.add(c.args[0].args[0].id)
+    list_merges = []
+    if not merges and joined_lists:
+        for nd in g.stmt_nodes():
+            if nd.kind == "stmt" and isinstance(nd.stmt, ast.Expr) and isinstance(nd.stmt.value, ast.Call) and isinstance(nd.stmt.value.func, ast.Attribute) and nd.stmt.value.func.attr == "append" \
+                    and isinstance(nd.stmt.value.func.value, ast.Name) and nd.stmt.value.func.value.id in joined_lists and nd.stmt.value.args and isinstance(nd.stmt.value.args[0], ast.Attribute) and nd.stmt.value.args[0].attr == "text":
+                list_merges.append(nd)
+    ctx.floor(len(merges) + len(list_merges), 1, "merge sites in Segment.simplify")
+    for nd in list_merges:
+        from ..astutil import inline as _inlB, single_defs as _sdfB
+        from ..yieldpaths import canon_test as _ctB
+        op = norm(nd.stmt.value.args[0].value)
+        cfB = {}
+        for t, v in g.branch_facts(nd.id):
+            for a, tv in _ctB(_inlB(t, _sdfB(f.node)), v):
+                cfB[a] = tv
+        conjB = [a for a, tv in cfB.items() if tv is True] + [f"not {a}" for a, tv in cfB.items() if tv is False]
+        ctx.check(f"not {op}.is_control" in conjB, f.fq, short(nd.stmt), f"{f.module.relpath}:{nd.lineno}", f"the text of `{op}` joins a run only when it is not a control segment",
+                  f"`{short(nd.stmt)}` adds the text of `{op}` to the run that becomes one ordinary segment although `{op}` may be a control segment: its control codes become visible text (e.g. the bell character shows up in export_html)")
+        ctx.check(any(".style ==" in c_ or ("== " in c_ and ".style" in c_) for c_ in conjB), f.fq, f"style equality guard of {short(nd.stmt)}", f"{f.module.relpath}:{nd.lineno}", "a run only grows while the styles are equal", "segments with different styles are merged")
     for nd in merges:
         a0 = nd.stmt.value.args[0]
         ops = [norm(a0.left).rsplit(".", 1)[0], norm(a0.right).rsplit(".", 1)[0]]
